@@ -32,7 +32,12 @@ func commonViolations(k xCase, x *xRun) []pbt.Violation {
 			if lr.BuildErr.Stage == "harness" {
 				panic("harness: " + lr.BuildErr.Output)
 			}
-			vs = append(vs, pbt.Violation{Signature: "build:" + buildErrClass(k.Prog, lr.BuildErr), Detail: fmt.Sprintf("emitted %s code does not build (%s): %s", l, lr.BuildErr.Stage, clip(firstLines(lr.BuildErr.Output, 6), 700))})
+			sig := "build:" + buildErrClass(k.Prog, lr.BuildErr)
+			if dsl.Has(k.Prog.Features(), "names:keyword") {
+				// a different root cause from any build failure of a program with ordinary names
+				sig = "keyword-name:" + sig
+			}
+			vs = append(vs, pbt.Violation{Signature: sig, Detail: fmt.Sprintf("emitted %s code does not build (%s): %s", l, lr.BuildErr.Stage, clip(firstLines(lr.BuildErr.Output, 6), 700))})
 			continue
 		}
 		if lr.Crash != "" {
@@ -138,7 +143,7 @@ type xProp struct {
 
 var xAssume = []string{
 	"emitted code is executed against stand-in runtimes written from the API the generators call (DESIGN 2.4, Appendix A); the real fin-proto-* runtimes, netty, JUnit and gtest are not installed",
-	"generated names avoid target-language reserved words; JavaPackage/GoPackage/GoModule are always set; values fit their fields (string length <= n / prefix capacity)",
+	"generated names avoid target-language reserved words (open finding C07-F3: no generator escapes them); JavaPackage/GoPackage/GoModule are always set; values fit their fields (string length <= n / prefix capacity)",
 	"NaN is excluded from float values",
 }
 
@@ -207,7 +212,8 @@ func runXPropWith(t *testing.T, xp xProp, post func(rt *rapid.T, k *xCase)) {
 }
 
 func defaultXCfg(rt *rapid.T, avoid map[string]bool) (dsl.GenCfg, int, dsl.ValCfg, bool) {
-	cfg := dsl.GenCfg{MaxPackets: 4, MaxFields: 6, Avoid: avoid}
+	// reserved words of the target languages as field names: excluded while finding C07-F3 is open
+	cfg := dsl.GenCfg{MaxPackets: 4, MaxFields: 6, Avoid: avoid, KeywordNames: true}
 	if rapid.IntRange(0, 2).Draw(rt, "kitchen") == 0 {
 		cfg.KitchenSink = true
 	}
